@@ -84,7 +84,7 @@ Exp(S, e) ==
          IF Mode(e) = 1 THEN Panics ELSE Res("ok", n :> Data(e), {})
     [] e.op \in {"b_clone", "m_clone"} -> Res("ok", n :> v, {})
     \* Clone::clone_from: the target takes the source's value; the source and everything else stay
-    [] e.op = "b_clone_from" -> IF Oth(e) \in DOMAIN S.val THEN Res("ok", h :> S.val[Oth(e)], {}) ELSE Same
+    [] e.op \in {"b_clone_from", "m_clone_from"} -> IF Oth(e) \in DOMAIN S.val THEN Res("ok", h :> S.val[Oth(e)], {}) ELSE Same
     [] e.op = "b_slice" ->
          LET be == SliceBounds(e, len) IN
          IF be[2] >= 0 /\ be[1] <= be[2] /\ be[2] <= len
@@ -180,7 +180,7 @@ SameAddr(p, q) == \/ (p.a = q.a /\ p.off = q.off)
                   \/ (p.a2 # 0 /\ p.a2 = q.a /\ p.off2 = q.off)
 
 \* handles the call may legitimately change
-Touched(e) == {e.h} \cup (IF e.op = "b_clone_from" THEN {} ELSE {Oth(e)}) \cup RangeOf(e.out.new)
+Touched(e) == {e.h} \cup (IF e.op \in {"b_clone_from", "m_clone_from"} THEN {} ELSE {Oth(e)}) \cup RangeOf(e.out.new)
 
 OthersUnchanged(S, e, obs) ==
   LET bad == {h \in (DOMAIN obs \cap DOMAIN S.view) \ Touched(e) :
